@@ -230,6 +230,7 @@ func runC03(c *Ctx) {
 		}
 	})
 
+	defer runC03more(c)
 	// ---------------------------------------------------------------- C03.3 / C03.5 / C03.6
 	c.Rule("C03.3", "response envelope length and the bound on the bytes that follow have the same origin", 5)
 	c.Rule("C03.5", "narrowing to uint32 for a response envelope length is dominated by a limit check of the same quantity", 4)
@@ -315,6 +316,287 @@ func runC03(c *Ctx) {
 		}
 	}
 	c.Check(okDel, "C03.4", FuncName(extract), "deletes-content-length", extract.Pos(), "the extractor deletes Content-Length", "the backend's Content-Length is parsed but not removed")
+}
+
+func runC03more(c *Ctx) {
+	p := c.P
+	// ---------------------------------------------------------------- C03.7
+	c.Rule("C03.7", "a failed write to the client-side sink closes the body adapter (its error cell is set) before the error is returned", 5)
+	for _, tn := range []string{"envelopingWriter", "transformingWriter"} {
+		n := p.MustNamed(tn)
+		st := n.Underlying().(*types.Struct)
+		var errF *types.Var
+		sinks := map[*types.Var]bool{}
+		for i := 0; i < st.NumFields(); i++ {
+			f := st.Field(i)
+			if f.Name() == "err" {
+				errF = f
+			}
+			if isNamed(f.Type(), "io", "Writer") {
+				sinks[f] = true
+			}
+		}
+		if errF == nil {
+			fatalf("anchor=%s.err not found", tn)
+		}
+		ms := p.SSA.MethodSets.MethodSet(types.NewPointer(n))
+		// forwarders: methods that return a sink write's results directly
+		forwarder := map[*ssa.Function]bool{}
+		isSinkWrite := func(call ssa.CallInstruction) bool {
+			cc := call.Common()
+			if cc.IsInvoke() && cc.Method.Name() == "Write" && sinks[LoadedField(cc.Value)] {
+				return true
+			}
+			if IsCallTo(call, "(*bytes.Buffer).WriteTo") && sinks[LoadedField(cc.Args[1])] {
+				return true
+			}
+			for _, cal := range p.CalleesAt(call) {
+				if forwarder[cal] {
+					return true
+				}
+			}
+			return false
+		}
+		var methods []*ssa.Function
+		for i := 0; i < ms.Len(); i++ {
+			if m := p.MethodOf(types.NewPointer(n), ms.At(i).Obj().Name()); m != nil && m.Blocks != nil {
+				methods = append(methods, m)
+			}
+		}
+		for iter := 0; iter < 2; iter++ {
+			for _, m := range methods {
+				ForEachInstr(m, func(in ssa.Instruction) {
+					ret, ok := in.(*ssa.Return)
+					if !ok || len(ret.Results) != 2 {
+						return
+					}
+					if ex, ok := ret.Results[1].(*ssa.Extract); ok {
+						if call, ok := ex.Tuple.(*ssa.Call); ok && isSinkWrite(call) && len(m.Blocks) <= 4 {
+							// a small helper that hands the sink's (n, err) straight back
+							stores := false
+							ForEachInstr(m, func(x ssa.Instruction) {
+								if _, isSt := x.(*ssa.Store); isSt {
+									stores = true
+								}
+							})
+							if !stores {
+								forwarder[m] = true
+							}
+						}
+					}
+				})
+			}
+		}
+		for _, m := range methods {
+			if forwarder[m] {
+				continue
+			}
+			for _, call := range Calls(m) {
+				if !isSinkWrite(call) {
+					continue
+				}
+				cv, ok := call.(*ssa.Call)
+				if !ok {
+					continue
+				}
+				c.CountSite()
+				var errV ssa.Value
+				for _, ref := range *cv.Referrers() {
+					if ex, ok := ref.(*ssa.Extract); ok && ex.Index == 1 {
+						errV = ex
+					}
+				}
+				if errV == nil || len(*errV.Referrers()) == 0 {
+					// deliberately ignored writes of already computed bytes (end frames) are outside this rule
+					c.Trivial("C03.7", FuncName(m), "sink-write-ignored:"+CalleeName(call), call.Pos(), "result not used")
+					continue
+				}
+				good := true
+				var w []ssa.Instruction
+				tested := false
+				for _, ref := range *errV.Referrers() {
+					switch r := ref.(type) {
+					case *ssa.BinOp:
+						if (r.Op == token.NEQ || r.Op == token.EQL) && (IsNilConst(r.X) || IsNilConst(r.Y)) {
+							for _, rr := range *r.Referrers() {
+								iff, ok := rr.(*ssa.If)
+								if !ok {
+									continue
+								}
+								tested = true
+								succ := iff.Block().Succs[0]
+								if r.Op == token.EQL {
+									succ = iff.Block().Succs[1]
+								}
+								setsErr := func(x ssa.Instruction) bool {
+									s2, ok := x.(*ssa.Store)
+									if !ok {
+										return false
+									}
+									fa, ok := s2.Addr.(*ssa.FieldAddr)
+									return ok && FieldOfAddr(fa) == errF && !IsNilConst(s2.Val)
+								}
+								if len(succ.Instrs) > 0 && !setsErr(succ.Instrs[0]) {
+									found, path := PathQuery{Target: IsReturn, Avoid: setsErr}.Search(m, succ.Instrs[0])
+									if IsReturn(succ.Instrs[0]) {
+										found, path = true, []ssa.Instruction{succ.Instrs[0]}
+									}
+									if found {
+										good, w = false, path
+									}
+								}
+							}
+						}
+					}
+				}
+				c.Check(good && tested, "C03.7", FuncName(m), "sink-write-error-closes-adapter:"+CalleeName(call), call.Pos(),
+					"a failed write to the sink sets the adapter's error cell on every path before returning",
+					"the error of a write to the client-side sink can be returned without setting the adapter's error cell ("+witnessString(p, w)+"): Close then still frames and flushes what was buffered, after the error/end was already reported")
+			}
+		}
+	}
+
+	// ---------------------------------------------------------------- C03.8
+	c.Rule("C03.8", "end-in-headers client protocols announce a content compression only when the body is the (possibly compressed) message, never on an error body", 2)
+	emb := p.Iface("clientProtocolEndMustBeInHeaders")
+	cph := p.Iface("clientProtocolHandler")
+	for _, t := range p.Implementers(cph) {
+		if !(types.Implements(t, emb) || types.Implements(types.NewPointer(t), emb)) {
+			continue
+		}
+		m := p.MethodOf(t, "addProtocolResponseHeaders")
+		for _, fn := range SortedFuncs(p.Reach(m)) {
+			if !p.inScope(fn) || fn.Name() != "addProtocolResponseHeaders" {
+				continue
+			}
+			for _, hm := range HeaderMutations(fn) {
+				if hm.Key == nil {
+					continue
+				}
+				k, _ := ConstString(hm.Key)
+				if textproto.CanonicalMIMEHeaderKey(k) != "Content-Encoding" || hm.Op == "Del" {
+					continue
+				}
+				c.CountSite()
+				noErr := false
+				for _, f := range FactsAt(hm.Instr.Block()) {
+					if !f.Truth && isHasErrCond(f.Cond) {
+						noErr = true
+					}
+				}
+				if !noErr {
+					// path-sensitive: no path reaches the store with both 'end != nil' and 'end.err != nil' true
+					paths, ok := EnumPaths(fn.Blocks[0], nil, func(x ssa.Instruction) bool { return x == hm.Instr }, 0)
+					if ok && len(paths) > 0 {
+						noErr = true
+						for _, cp := range paths {
+							// evidence on this path that the response carries no error: 'end == nil' or 'end.err == nil'
+							evidence := false
+							for cond, truth := range cp.Truth {
+								b, isB := cond.(*ssa.BinOp)
+								if !isB || !IsNilConst(b.Y) {
+									continue
+								}
+								isNil := b.Op == token.NEQ && !truth || b.Op == token.EQL && truth
+								if !isNil {
+									continue
+								}
+								name := ""
+								if f := LoadedFieldOrField(b.X); f != nil {
+									name = f.Name()
+								}
+								if fv, isF := b.X.(*ssa.Field); isF {
+									name = FieldOfVal(fv).Name()
+								}
+								if name == "end" || name == "err" {
+									evidence = true
+								}
+							}
+							if !evidence {
+								noErr = false
+							}
+						}
+					}
+				}
+				c.Check(noErr, "C03.8", FuncName(fn), "content-encoding-only-without-error", hm.Instr.Pos(),
+					"Content-Encoding is announced only on the no-error edge", "Content-Encoding can be announced on an error response whose body is the uncompressed error payload: declared compression does not match the bytes")
+			}
+		}
+	}
+
+	// ---------------------------------------------------------------- C03.9
+	c.Rule("C03.9", "the response compression cell the error-body collector reads is set on every path that installs it while the response declares a compression", 1)
+	rwT := types.NewPointer(p.MustNamed("responseWriter"))
+	wh := p.MethodOf(rwT, "WriteHeader")
+	wF := p.MustField("responseWriter", "w")
+	respComprF := p.MustField("serverProtocolDetails", "respCompression")
+	comprMetaF := p.MustField("responseMeta", "compression")
+	ForEachInstr(wh, func(in ssa.Instruction) {
+		st, ok := in.(*ssa.Store)
+		if !ok {
+			return
+		}
+		fa, ok := st.Addr.(*ssa.FieldAddr)
+		if !ok || FieldOfAddr(fa) != wF {
+			return
+		}
+		isErrW := false
+		for _, l := range Origins(st.Val) {
+			if l.Kind == "alloc" && isNamed(l.V.Type(), RootPath, "errorWriter") {
+				isErrW = true
+			}
+		}
+		if !isErrW {
+			return
+		}
+		paths, ok := EnumPaths(wh.Blocks[0], nil, func(x ssa.Instruction) bool { return x == in }, 0)
+		if !ok {
+			c.Unknown("C03.9", FuncName(wh), "paths", st.Pos(), "too many paths")
+			return
+		}
+		bad := 0
+		for _, cp := range paths {
+			declared := false
+			for cond, truth := range cp.Truth {
+				b, ok := cond.(*ssa.BinOp)
+				if !ok || !truth || b.Op != token.NEQ {
+					continue
+				}
+				if s2, isS := ConstString(b.Y); isS && s2 == "" {
+					if f := LoadedFieldOrField(b.X); f == comprMetaF {
+						declared = true
+					} else if fv, ok := b.X.(*ssa.Field); ok && FieldOfVal(fv) == comprMetaF {
+						declared = true
+					} else {
+						for _, l := range Origins(b.X) {
+							if l.Kind == "load" && l.Field == comprMetaF {
+								declared = true
+							}
+						}
+					}
+				}
+			}
+			if !declared {
+				continue
+			}
+			set := false
+			for _, b := range cp.Blocks {
+				for _, x := range b.Instrs {
+					if s2, ok := x.(*ssa.Store); ok {
+						if fa2, ok := s2.Addr.(*ssa.FieldAddr); ok && FieldOfAddr(fa2) == respComprF {
+							set = true
+						}
+					}
+				}
+			}
+			if !set {
+				bad++
+			}
+		}
+		c.Check(bad == 0, "C03.9", FuncName(wh), "compression-known-before-error-body", st.Pos(),
+			"whenever the backend declared a compression, the server response-compression cell is set before the error-body collector is installed",
+			itoa(bad)+" path(s) install the error-body collector for a response that declares a compression without recording that compression: a compressed error body is parsed as if it were plain and the backend's error is lost")
+	})
 }
 
 // isHasErrCond: v is (a phi / conjunction of) "end != nil && end.err != nil".
